@@ -184,7 +184,7 @@ theorem proper_prefix_not_rejected (r : Regs) (a b out : Array UInt8) (outPos bu
     · rw [h.2, hea]
     · exfalso; rw [hst0] at h; exact done_ne_eoi ea h.1.symm
     · exfalso; rw [hst0] at h; exact failed_ne_eoi ea h.1.symm
-    · exfalso; rw [hst0] at h; exact bb_ne_eoi ea h.symm
+    · exfalso; rw [hst0] at h; exact bb_ne_eoi ea h.1.symm
   rw [hdec]
   have hundo : exitUndo st0 c1 = 0 := by
     unfold exitUndo
